@@ -1019,7 +1019,45 @@ def full_queue_scenarios():
         for _ in range(3):
             s.engine.update()                            # drains the producer queue (needs the producer lock)
 
+    race = {}
+
+    def bound_receiver_one_slot(s):
+        # the receiver as `BoboReceiver(max_size=3)` builds it, two data waiting: ONE free slot, two feeder threads.  The
+        # first feeder's look at `full()` takes a moment (until the other feeder is through, or 1 s): if that look and
+        # the `put` are one step under the receiver's lock the second feeder simply waits and is then refused; if they are
+        # not, both see the free slot and the loser waits for room INSIDE the lock the engine needs to make room.
+        class SlowLook(Queue):
+            def full(self):
+                answer = super().full()
+                if threading.current_thread().name == race.get('first') and not race.get('looked'):
+                    race['looked'] = True
+                    race['done'].wait(1.0)         # pre-empted right after the look: the answer is used later
+                return answer
+        race.clear()
+        race['done'] = threading.Event()
+        r = s.engine.receiver
+        r._max_size = 3
+        r._queue = SlowLook(3)
+        s.feed(7, 7)
+
+    def feeder_first(s, p):
+        race['first'] = threading.current_thread().name
+        s.engine.receiver.add_data(7)
+
+    def feeder_second(s, p):
+        try:
+            s.engine.receiver.add_data(7)
+        finally:
+            race['done'].set()
+
+    def engine_after_race(s, p):
+        race['done'].wait(2.0)                           # the engine loop is busy elsewhere while the feeders race
+        time.sleep(0.2)
+        engine_idle_updates(s, p)
+
     return [
+        ('receiver-last-slot-race', bound_receiver_one_slot, ('feeder', feeder_first),
+         [('feeder', feeder_second), ('engine', engine_after_race)]),
         ('producer-queue-overflow', bound_producer, ('dist_main', main_two_completions),
          [('engine', engine_idle_updates), ('engine', engine_change)]),
         ('outgoing-queue-full', bound_outgoing, ('engine', engine_change),
@@ -1032,12 +1070,14 @@ def full_queue_scenarios():
 make_payloads_cache = {}
 
 
-def full_queue_liveness(payloads, wait_s=3.0):
+def full_queue_liveness(payloads, wait_s=3.0, only=None):
     """run every scenario on real threads; a scenario in which the producer AND another role are still blocked after
     `wait_s` (each operation takes milliseconds) is a deadlock through a queue wait.  Returns a list of result dicts."""
     make_payloads_cache.update(payloads)
     out = []
     for name, bound, (prole, pop), others in full_queue_scenarios():
+        if only is not None and name != only:
+            continue
         rec = Recorder()
         rec.timeout = wait_s + 2.0
         s = fresh(rec, VARIANTS[0])
